@@ -356,6 +356,24 @@ func RunCheck(opt *Options) (*CheckReport, error) {
 		timeout = 90000
 	}
 	cfg := &SolverCfg{WorkDir: work, TimeoutMs: timeout, Seed: opt.Seed, Jobs: opt.Jobs, CrossCheck: opt.Tier == "thorough"}
+	// quick tier: an obligation recorded as a known finding is EXPECTED to stay undecided/refuted: it gets the
+	// short budget only (enough to notice that it discharges, i.e. that the finding no longer reproduces); the
+	// thorough tier gives it the full budget and replays it against the finding's input pattern
+	if opt.Tier != "thorough" {
+		if fs, err := loadFindings(filepath.Join(opt.VerifDir, "known_findings.txt")); err == nil {
+			known := map[string]bool{}
+			for _, f := range fs {
+				if f.Kind == "finding" && f.Property == opt.Property {
+					known[f.Obligation] = true
+				}
+			}
+			for _, q := range queries {
+				if known[q.Name] {
+					q.ShortBudget = true
+				}
+			}
+		}
+	}
 	results := SolveAll(context.Background(), cfg, queries)
 	rep.NQueries = len(queries)
 	// aggregate
